@@ -9,6 +9,7 @@ package main
 
 import (
 	"fmt"
+	"math/big"
 	"os"
 	"path/filepath"
 	"sort"
@@ -436,6 +437,8 @@ type Contract struct {
 	Uses       []string // theory groups
 	GhostDecls []string
 	Fresh      []*FreshClause
+	SpecVars   [][2]string // speclemma: variable name, bit width
+	TimeoutMs  int
 }
 
 type FreshClause struct {
@@ -481,18 +484,22 @@ type SpecDB struct {
 	StateFns  map[string]*StateFn
 	GlobalFacts map[string][]SExpr
 	GlobalInits []*GlobalInit
+	Defines map[string]*PredDef // spec functions with a definition, also emitted as SMT define-fun
+	DefineOrder []string
 }
 
 type GlobalInit struct {
 	Name  string // qualified
 	Lit   string
+	Ints  []string // initints: expected integer elements (decimal)
+	IsInts bool
 	Props []string
 	Src   string
 }
 
 func NewSpecDB() *SpecDB {
 	return &SpecDB{Contracts: map[string]*Contract{}, Preds: map[string]*PredDef{}, Ghosts: map[string]*GhostDecl{},
-		SpecFns: map[string]*SpecFn{}, Consts: map[string]string{}, StateFns: map[string]*StateFn{}, GlobalFacts: map[string][]SExpr{}}
+		SpecFns: map[string]*SpecFn{}, Consts: map[string]string{}, StateFns: map[string]*StateFn{}, GlobalFacts: map[string][]SExpr{}, Defines: map[string]*PredDef{}}
 }
 
 // splitTags strips a trailing "[C01 C02]" tag group.
@@ -617,6 +624,58 @@ func (db *SpecDB) LoadSpecFile(path, pkgPath string, trusted bool) error {
 				db.Trusted = append(db.Trusted, c.Key)
 			}
 			cur = c
+		case "speclemma":
+			// speclemma name(x:32, v:8): a statement over integers of the given
+			// bit widths, proved from requires to ensures without any code
+			j := strings.Index(rest, "(")
+			k := strings.LastIndex(rest, ")")
+			if j < 0 || k < j {
+				return fail(fmt.Errorf("bad speclemma header"))
+			}
+			name := strings.TrimSpace(rest[:j])
+			c := &Contract{Loops: map[int]*LoopSpec{}, Inline: map[string]bool{}, Pure: map[string]bool{}, Props: map[string]bool{}}
+			c.Key = pkgPath + ".speclemma." + name
+			c.Lemma = true
+			c.File = src
+			for _, v := range strings.Split(rest[j+1:k], ",") {
+				v = strings.TrimSpace(v)
+				if v == "" {
+					continue
+				}
+				nv := strings.SplitN(v, ":", 2)
+				w := "64"
+				if len(nv) == 2 {
+					w = strings.TrimSpace(nv[1])
+				}
+				c.SpecVars = append(c.SpecVars, [2]string{strings.TrimSpace(nv[0]), w})
+			}
+			db.Contracts[c.Key] = c
+			cur = c
+		case "define":
+			// define name(a, b) := integer expression over integer parameters
+			i := strings.Index(rest, ":=")
+			if i < 0 {
+				return fail(fmt.Errorf("define needs :="))
+			}
+			head := strings.TrimSpace(rest[:i])
+			body := strings.TrimSpace(rest[i+2:])
+			j := strings.Index(head, "(")
+			if j < 0 || !strings.HasSuffix(head, ")") {
+				return fail(fmt.Errorf("bad define header %q", head))
+			}
+			name := strings.TrimSpace(head[:j])
+			var params []string
+			for _, p := range strings.Split(head[j+1:len(head)-1], ",") {
+				if p = strings.TrimSpace(p); p != "" {
+					params = append(params, p)
+				}
+			}
+			e, err := parseSpecExpr(body)
+			if err != nil {
+				return fail(err)
+			}
+			db.Defines[name] = &PredDef{Name: name, Params: params, Body: e, Text: body}
+			db.DefineOrder = append(db.DefineOrder, name)
 		case "pred":
 			// pred name(a, b) := expr
 			i := strings.Index(rest, ":=")
@@ -684,6 +743,32 @@ func (db *SpecDB) LoadSpecFile(path, pkgPath string, trusted bool) error {
 				}
 				db.GlobalInits = append(db.GlobalInits, &GlobalInit{Name: name, Lit: lit, Props: tags, Src: src})
 				le, _ := parseSpecExpr("bytes(it) == " + strconv.Quote(lit))
+				db.GlobalFacts[name] = append(db.GlobalFacts[name], le)
+				continue
+			}
+			// global Name initints 1, 2, 3 [tags]: slice literal of integers
+			if k := strings.Index(rest, " initints "); k >= 0 {
+				name := strings.TrimSpace(rest[:k])
+				if pkgPath != "" && !strings.Contains(name, ".") {
+					name = pkgPath + "." + name
+				}
+				body, tags := splitTags(rest[k+len(" initints "):])
+				gi := &GlobalInit{Name: name, Props: tags, Src: src, IsInts: true}
+				fact := fmt.Sprintf("len(it) == %d", len(strings.Split(body, ",")))
+				for idx, v := range strings.Split(body, ",") {
+					v = strings.TrimSpace(v)
+					n, ok := new(big.Int).SetString(v, 0)
+					if !ok {
+						return fail(fmt.Errorf("initints: bad integer %q", v))
+					}
+					gi.Ints = append(gi.Ints, n.String())
+					fact += fmt.Sprintf(" && it[%d] == %s", idx, n.String())
+				}
+				db.GlobalInits = append(db.GlobalInits, gi)
+				le, err := parseSpecExpr(fact)
+				if err != nil {
+					return fail(err)
+				}
 				db.GlobalFacts[name] = append(db.GlobalFacts[name], le)
 				continue
 			}
@@ -995,6 +1080,12 @@ func (c *Contract) addClause(word, label, rest, src string) error {
 		c.MayPanic = true
 	case "nosafety":
 		c.NoSafety = true
+	case "timeout":
+		n, err := strconv.Atoi(strings.TrimSpace(rest))
+		if err != nil {
+			return err
+		}
+		c.TimeoutMs = n
 	case "pathcap":
 		n, err := strconv.Atoi(strings.TrimSpace(rest))
 		if err != nil {
